@@ -138,7 +138,8 @@ pub fn create_string_to_sign(
         if let Some(qs) = qs {
             let mut is_first = true;
             for q in INCLUDED_QUERY {
-                if let Some(v) = qs.get_unique(q) {
+                // a sub-resource that occurs several times is signed as often as it occurs
+                for v in qs.get_all(q) {
                     if is_first {
                         ans.push('?');
                         is_first = false;
